@@ -20,6 +20,9 @@ type goroutine struct {
 	waiting  func() bool
 	waitDesc string
 	top      *frame
+	// value of the shared-state epoch (scheduler.visOps) when the goroutine
+	// last resumed from a Gosched (0 at start)
+	epochAtWake int
 }
 
 type pathEnd struct {
@@ -91,7 +94,6 @@ func (s *scheduler) park(me *goroutine) {
 // schedPoint is called by the running goroutine before a visible operation.
 func (fr *frame) schedPoint(kind string) {
 	s := fr.p.sched
-	s.visOps++
 	if !s.explore || len(s.gs) == 1 {
 		return
 	}
@@ -191,6 +193,7 @@ func (fr *frame) spawn(instr *ssa.Go, fn value, args []value) {
 	go s.runGoroutine(g, func() {
 		root.call(instr.Pos(), fn, args, nil)
 	})
+	s.visOps++
 	fr.schedPoint("go")
 }
 
@@ -270,27 +273,32 @@ func (s *scheduler) killAll() {
 	s.wg.Wait()
 }
 
-// gosched implements runtime.Gosched / time.Sleep: yield, and stay disabled
-// until another goroutine performed a visible operation.
+// gosched implements runtime.Gosched / time.Sleep (spin-wait reduction).
+// The goroutine yields; if no shared state changed since it last resumed
+// (neither by itself nor by anybody else) re-running its loop body cannot
+// observe anything new, so it stays disabled until some goroutine changes
+// shared state (a store to non-local memory, a map/channel/lock/wait-group/
+// atomic state change, a goroutine start or exit). If nobody can, the spin is
+// a livelock and is reported like a deadlock.
 func (fr *frame) gosched() {
 	s := fr.p.sched
-	s.visOps++
-	stamp := s.visOps
+	g := fr.g
 	if len(s.gs) == 1 {
 		return
 	}
+	stamp := g.epochAtWake
 	first := true
 	fr.blockOn(func() bool {
 		if first {
-			// must give others a chance once
+			// give the others a chance once
 			first = false
-			if len(s.othersEnabled(fr.g)) > 0 {
+			if len(s.othersEnabled(g)) > 0 {
 				return false
 			}
-			return true
 		}
 		return s.visOps != stamp
 	}, "gosched/spin")
+	g.epochAtWake = s.visOps
 }
 
 // quiesce runs the other goroutines until none is enabled.
